@@ -138,7 +138,9 @@ def gs_raises(ctx, st, exc):
 
 # ------------------------------------------------------------------------------------- handle_subcommands
 def hs_setup(ctx):
-    env_on = ctx.choose(2, "env") == 1
+    env_choice = ctx.choose(3, "env:False/True/None(left to the parser)")
+    env_on = env_choice == 1
+    env_arg = [False, True, None][env_choice]
     defaults = ctx.choose(2, "defaults") == 1
     has_inner = ctx.choose(2, "inner-subparsers") == 1
     given_present = ctx.choose(2, "settings-given") == 1
@@ -174,11 +176,15 @@ def hs_setup(ctx):
         "get": lambda c, s_, a, k: store.get(a[0], a[1] if len(a) > 1 else None),
         "__setitem__": lambda c, s_, a, k: (store.__setitem__(a[0], a[1]), c.event("store", a[0], a[1]))[0],
     })
-    calls = {"_ActionSubCommands.get_subcommands": get_subcommands, "_ActionSubCommands.handle_subcommands": recursive, "Namespace": lambda c, a, k: empty}
+    # parse_kwargs is set by parse_args and never reset (parse_kwargs_context): outside argparse's dispatch of that very call it holds the keywords of an *earlier*
+    # parse_args - of this or of any other parser. Reading it here would make the answer depend on the history (C09).
+    leftover = {"env": z3.Bool("env-keyword-of-an-earlier-parse_args"), "defaults": z3.Bool("defaults-keyword-of-an-earlier-parse_args")}
+    calls = {"_ActionSubCommands.get_subcommands": get_subcommands, "_ActionSubCommands.handle_subcommands": recursive, "Namespace": lambda c, a, k: empty,
+             "parse_kwargs.get": lambda c, a, k: (c.event("read-of-parse_kwargs"), Rec("dict", methods={"get": lambda c2, s2, a2, k2: leftover.get(a2[0]), "__getitem__": lambda c2, s2, a2, k2: leftover[a2[0]]}))[1]}
     noop = (lambda c, a, k: c.event("parent_parsers_context", a[0], a[1] if len(a) > 1 else None), lambda c, t, e: False)
     fail = z3.Bool("fail_no_subcommand")
     the_parser = Rec("ArgumentParser")
-    return Setup(env={"parser": the_parser, "cfg": cfg, "env": env_on, "defaults": defaults, "prefix": prefix, "fail_no_subcommand": fail},
+    return Setup(env={"parser": the_parser, "cfg": cfg, "env": env_arg, "defaults": defaults, "prefix": prefix, "fail_no_subcommand": fail},
                  calls=calls, cms={"parent_parsers_context": noop},
                  data=dict(parser=the_parser, cfg=cfg, env_on=env_on, defaults=defaults, has_inner=has_inner, given=given if given_present else empty, prefix=prefix, sub_src=sub_src, store=store, subparser=subparser, fail=fail))
 
@@ -187,6 +193,7 @@ def hs_post(ctx, st, result):
     d = st.data
     ev = ctx.events
     selected = any(x.startswith("selected=1") for x in ctx.decisions_txt)
+    ctx.oblige("frame", "no-read-of-parse_kwargs(it holds the keywords of an earlier parse_args - of any parser - unless read inside that call's own argparse dispatch)", not [e for e in ev if e[0] == "read-of-parse_kwargs"])
     key = d["prefix"] + "fit"
     gs = [e for e in ev if e[0] == "get_subcommands"]
     ctx.oblige("post", "the-selection-is-made-on-this-parser-and-this-configuration,with-the-caller's-prefix-and-failure-mode", len(gs) == 1 and gs[0][3] is d["parser"] and gs[0][4] is d["cfg"] and gs[0][1] == d["prefix"] and gs[0][2] is d["fail"])
